@@ -28,10 +28,15 @@ pub struct PTrace {
     pub rcount: u64,
     /// read events are recorded (Safe read-only option on every node)
     pub reads: bool,
-    /// how many times leader c has recorded a request with this context so far: the network may
-    /// duplicate a forwarded MsgReadIndex, and the leader then records (and answers) the same
-    /// context again; the abstract protocol identifies a request by (leader, context, occurrence)
+    /// term in which leader c last recorded a request with this context (see `read_req`)
     pub read_inst: std::collections::BTreeMap<(u64, Vec<u8>), u64>,
+    /// reads released by an acknowledgement that was counted for a re-recorded duplicate request
+    /// (known finding `stale-read-by-duplicates`): they are not abstract serve events
+    pub released_by_duplicate: u64,
+    /// their contexts (the read_index monitor names the known finding instead of a plain stale read)
+    pub tainted_reads: std::collections::BTreeSet<Vec<u8>>,
+    /// re-recorded (duplicate) requests whose answer is still to come
+    pub read_dups: std::collections::BTreeSet<(u64, Vec<u8>)>,
 }
 
 /// id of a read request context
@@ -136,33 +141,37 @@ impl PTrace {
     }
     /// read-layer events: `10 c ctx idx` request recorded, `11 q c t ctx` heartbeat
     /// acknowledgement created, `12 c ctx idx` read served
-    fn inst_id(&self, c: u64, ctx: &[u8]) -> u64 {
-        let k = self.read_inst.get(&(c, ctx.to_vec())).cloned().unwrap_or(0);
-        let mut v = ctx.to_vec();
-        v.extend_from_slice(&k.to_le_bytes());
-        ctx_id(&v)
-    }
-    pub fn read_req(&mut self, c: u64, ctx: &[u8], idx: u64) {
+    /// A read request is identified by (leader, term, context).  The network may duplicate a
+    /// forwarded MsgReadIndex (or deliver it again much later): once the first copy has been
+    /// answered the leader records and answers the same context again, counting heartbeat
+    /// acknowledgements by context alone - also those created for the first copy.  Such a
+    /// re-recording within the same term is the SAME request of the application (the property
+    /// presupposes unique contexts), so it and its answer are not separate abstract events.
+    pub fn read_req(&mut self, c: u64, t: u64, ctx: &[u8], idx: u64) {
         if self.enabled && self.reads {
-            *self.read_inst.entry((c, ctx.to_vec())).or_insert(0) += 1;
-            let id = self.inst_id(c, ctx);
-            self.rev.extend_from_slice(&[10, c, id, idx]);
+            let key = (c, ctx.to_vec());
+            if self.read_inst.get(&key) == Some(&t) {
+                self.read_dups.insert(key);
+                return;
+            }
+            self.read_inst.insert(key, t);
+            self.rev.extend_from_slice(&[10, c, ctx_id(ctx), idx]);
             self.rcount += 1;
         }
     }
-    /// q created a heartbeat response echoing ctx for leader c: it counts for c's current
-    /// (latest recorded) request with that context, as in the implementation (matched by context)
+    /// q created a heartbeat response echoing ctx for leader c
     pub fn hb_ack(&mut self, q: u64, c: u64, t: u64, ctx: &[u8]) {
         if self.enabled && self.reads {
-            let id = self.inst_id(c, ctx);
-            self.rev.extend_from_slice(&[11, q, c, t, id]);
+            self.rev.extend_from_slice(&[11, q, c, t, ctx_id(ctx)]);
             self.rcount += 1;
         }
     }
     pub fn read_serve(&mut self, c: u64, ctx: &[u8], idx: u64) {
         if self.enabled && self.reads {
-            let id = self.inst_id(c, ctx);
-            self.rev.extend_from_slice(&[12, c, id, idx]);
+            if self.read_dups.remove(&(c, ctx.to_vec())) {
+                return;
+            }
+            self.rev.extend_from_slice(&[12, c, ctx_id(ctx), idx]);
             self.rcount += 1;
         }
     }
